@@ -384,6 +384,32 @@ pub fn real_restore_ok(h: &RepoHandle, expected: &BTreeMap<String, String>) -> b
     .unwrap_or(false)
 }
 
+/// Do all snapshot files the BACKEND lists load, and read back as recorded?  (The listing of the backend, not
+/// `get_all_snapshots`: a reader that skips files it cannot load would hide exactly the damaged ones.)  A snapshot
+/// file that cannot be loaded is a snapshot that cannot be restored.
+pub fn real_restore_listed_ok(h: &RepoHandle, expected: &BTreeMap<String, String>) -> bool {
+    let h2 = h.clone();
+    let expected = expected.clone();
+    std::panic::catch_unwind(std::panic::AssertUnwindSafe(move || {
+        let ids = h2.be.ids(FileType::Snapshot);
+        let Ok(repo) = open_nc(&h2) else { return false };
+        let mut snaps = Vec::new();
+        for id in ids {
+            let hexid = id.to_hex().to_string();
+            match repo.get_snapshot_from_str(&hexid, |_| true) {
+                Ok(s) => snaps.push((hexid, s)),
+                Err(_) => return false,
+            }
+        }
+        let Ok(repo) = repo.to_indexed() else { return false };
+        snaps.iter().all(|(id, s)| match tree_digest(&repo, s.tree) {
+            Ok(d) => expected.get(id) == Some(&d),
+            Err(_) => false,
+        })
+    }))
+    .unwrap_or(false)
+}
+
 const INDEX_KINDS: [&str; 5] = ["PackTimeNotSet", "PackBlobTypesMismatch", "PackBlobOffsetMismatch", "PackSizeMismatchIndex", "NoPack"];
 
 /// Does some blob key have two *different* index entries among the live packs?  Then which one the real
@@ -426,7 +452,7 @@ pub fn exec(toks: &[&str]) -> String {
             Ok(e) => canon_errs(e.clone()),
             Err(_) => "cmd-err".to_string(),
         };
-        let ok = real_restore_ok(&h, &expected);
+        let ok = real_restore_listed_ok(&h, &expected);
         if errs == "none" && !ok {
             return "oracle-fail:silent".to_string();
         }
@@ -589,6 +615,71 @@ pub fn build_repo(rng: &mut Rng, stats: &mut Stats, force_stdin: bool) -> Option
     Some(Built { h, expected })
 }
 
+fn evolve(src: &MemSource, rng: &mut Rng, k: usize) -> MemSource {
+    let mut es = src.entries.clone();
+    es.retain(|e| !matches!(e.kind, SrcKind::Dir));
+    let el = 1 + rng.below(2500) as usize;
+    let extra = content(rng, el);
+    es.push(SrcEntry::file(&[format!("n{k}").as_bytes()], &extra));
+    if es.len() > 2 && rng.chance(1, 2) {
+        _ = es.remove(0);
+    }
+    MemSource::new(es)
+}
+
+/// A repository with a forget/prune history: backup(s), forget, prune with keep-delete > 0 (unused packs are only
+/// *marked*: they stay stored and are listed in `packs_to_delete`; partly used packs are repacked and their old
+/// versions marked), then the forgotten data is backed up again (blobs in marked packs are not indexed, so they are
+/// uploaded again into new packs described by a new index file) — every key of the new snapshot then has a second,
+/// not indexed copy in a marked pack.
+pub fn build_pruned(rng: &mut Rng, stats: &mut Stats) -> Option<Built> {
+    let (cfg, v1) = cfg_opts(rng, stats);
+    let h = init_repo(&cfg, v1)?;
+    let archive = |src: &MemSource| -> Option<SnapshotFile> {
+        let repo = open_nc(&h).ok()?.to_indexed_ids().ok()?;
+        repo.archive(&BackupOptions::default(), src, SnapshotFile::default(), &[PathBuf::from(crate::repo::SRC_ROOT)]).ok()
+    };
+    let src0 = tree_source(rng, stats);
+    let first = archive(&src0)?;
+    let mut src = src0.clone();
+    let n_more = rng.below(3) as usize;
+    for k in 0..n_more {
+        src = evolve(&src, rng, k);
+        _ = archive(&src)?;
+    }
+    // forget the first snapshot (possibly the only one), prune: marks / repacks
+    let repo = open_nc(&h).ok()?;
+    repo.delete_snapshots(&[first.id]).ok()?;
+    let mut opts = rustic_core::PruneOptions::default();
+    if rng.chance(1, 2) {
+        opts = opts.max_unused(rustic_core::LimitOption::Percentage(0)).max_repack(rustic_core::LimitOption::Unlimited);
+        stats.hit("prune.max-unused-0");
+    }
+    let plan = repo.prune_plan(&opts).ok()?;
+    repo.prune(&opts, plan).ok()?;
+    stats.hit("repo.pruned-with-marked-packs");
+    // the forgotten data again (and possibly one more backup)
+    _ = archive(&src0)?;
+    if rng.chance(1, 3) {
+        src = evolve(&src, rng, 7);
+        _ = archive(&src)?;
+    }
+    let marked = index_packs_marked(&h.key, &h.be.store());
+    stats.hit(format!("repo.marked-packs.{}", Stats::bucket(marked)));
+    let expected = all_digests(&h).ok()?;
+    Some(Built { h, expected })
+}
+
+fn index_packs_marked(key: &MasterKey, store: &Store) -> usize {
+    let mut n = 0;
+    for (_, b) in files_of(store, FileType::Index) {
+        if let Some(f) = decode_file(key, &b).and_then(|p| serde_json::from_slice::<IndexFile>(&p).ok()) {
+            n += f.packs_to_delete.len();
+        }
+    }
+    n
+}
+
 fn reencode_index(key: &MasterKey, f: &IndexFile) -> (Id, Bytes) {
     let data = hk::encrypt(key, &serde_json::to_vec(f).unwrap());
     let id: Id = sha_hex(&data).parse().unwrap();
@@ -721,11 +812,18 @@ pub fn line(label: &str, key: &MasterKey, store: &Store, expected: &BTreeMap<Str
 }
 
 pub fn generate(thorough: bool, rng: &mut Rng, ops: &mut Vec<String>, stats: &mut Stats) {
-    let n_repos = if thorough { 20 } else { 4 };
+    let n_repos = if thorough { 24 } else { 5 };
     let per_repo_cap = if thorough { 300 } else { 110 };
     for r in 0..n_repos {
         // the first repository of every run is the stdin-style one (packs holding only a root tree)
-        let built = if r == 0 { build_stdin_pair(stats, rng.chance(1, 2)) } else { build_repo(rng, stats, r == 1) };
+        // … the third one (and every fourth after it) has a forget/prune history with packs marked for deletion
+        let built = if r == 0 {
+            build_stdin_pair(stats, rng.chance(1, 2))
+        } else if r % 4 == 2 {
+            build_pruned(rng, stats)
+        } else {
+            build_repo(rng, stats, r == 1)
+        };
         let Some(b) = built else {
             stats.hit("repo.build-failed");
             continue;
